@@ -115,3 +115,54 @@ def cex_c15(obl, results, env):
         return _first_fail(validate.frame_boundary(env))
     except driver.Undecided:
         return None
+
+
+TIMEOUT_TABLE = [(None, None), ("0", 0), ("1", 1), ("1500", 1500), ("1000000000", 1000000000), ("18446744073709551615", 2**64 - 1),
+                 ("18446744073709551616", None), ("-1", None), (" 5", None), ("1.5", None), ("abc", None), ("", None)]
+
+
+def cex_c11(obl, results, env):
+    kr = _unit(results, 'kani_timeout')
+    cands = []
+    if kr and kr.get('status') == 'ok':
+        failed = [o for o in kr['obligations'] if o['status'] == 'failed' and o['harness'] in ('inbound_deadline_is_min', 'outbound_deadline_is_min')]
+        for o in failed:
+            vecs, out = driver.kani_playback(kr, o['harness'])
+            if not vecs:
+                continue
+            flat = [b for v in vecs for b in v]
+            i = int.from_bytes(bytes(flat[:8]), 'little') % 12
+            has_default = bool(flat[8]) if len(flat) > 8 else False
+            default_ns = None
+            if has_default and len(flat) >= 21:
+                secs = int.from_bytes(bytes(flat[9:17]), 'little')
+                nanos = int.from_bytes(bytes(flat[17:21]), 'little')
+                default_ns = min(secs, 10**6) * 10**9 + (nanos // 10**6) * 10**6   # replay with a millisecond-aligned, representable default
+            cands.append((o['harness'].split('_')[0], TIMEOUT_TABLE[i][0], default_ns, 'kani concrete playback of harness %s' % o['harness']))
+    # small search as a fallback (both directions, header texts of the table, two defaults)
+    for d in ('inbound', 'outbound'):
+        for (txt, _) in TIMEOUT_TABLE:
+            for dflt in (None, 250 * 10**6):
+                cands.append((d, txt, dflt, 'search over header texts x defaults'))
+    for (direction, txt, dflt, src) in cands:
+        hv = dict(TIMEOUT_TABLE).get(txt) if txt is not None else None
+        exp = None
+        if hv is not None and dflt is not None:
+            exp = min(hv, dflt)
+        elif hv is not None:
+            exp = hv
+        elif dflt is not None:
+            exp = dflt
+        if exp is not None and exp > 10**9 * 3600 * 24 * 365 * 40:
+            continue
+        got, ok = _replay('timeout_select', dict(direction=direction, header=txt, default_ns=dflt), env)
+        if not ok:
+            return dict(counterexample=dict(scenario='timeout_select', args=dict(direction=direction, header=txt, default_ns=dflt), expected=dict(deadline_ns=exp), source=src),
+                        observed=got, replayed_on_real_code=False, reproduced=False)
+        obs = got.get('deadline_ns')
+        bad = (exp is None) != (obs is None) or (exp is not None and abs(obs - exp) > 10**6) or got.get('inner_calls') != 1
+        if bad:
+            return dict(counterexample=dict(scenario='timeout_select', args=dict(direction=direction, header=txt, default_ns=dflt),
+                                            expected=dict(deadline_ns=exp, inner_calls=1, note='tokio timers have millisecond granularity: observed may exceed expected by < 1 ms'), source=src),
+                        observed=got, replayed_on_real_code=True, reproduced=True)
+    return None
